@@ -109,6 +109,9 @@ META["rule"] += (
 META["rule"] += (
     " " + 'Added after the sixth round: the null model of RandomlySetCrossLinks(_sparse) over all group sizes 1..12 x 1..12 with six cross link counts each.')
 
+META["rule"] += (
+    " " + 'Added after the seventh round: the caller rescales its distance array (and the tolerance) in place between two geographical rewiring calls on one network.')
+
 EPS_FLOAT_SLACK = 1e-5
 HARD_KILL_S = 25
 
@@ -656,7 +659,19 @@ def do_geo(ctx, r, model, A, D, eps, style, spacing, bulk, cid, sample):
     # ---- one iteration at a time ----------------------------------------
     nsteps = 12 if ctx.thorough else 8
     hist = []
+    D = np.array(D, dtype=float)          # the caller's own distance array
     for step in range(nsteps):
+        if step and r.random() < 0.3:
+            # the caller changes the unit of its distance array in place
+            # (and of the tolerance) between two calls on the same network
+            D *= 4.0
+            eps = eps * 4.0
+            D32 = np.float32(D)
+            eps32 = np.float32(eps)
+            slack = slack * 4.0
+            if spacing is not None:
+                spacing = spacing * 4.0
+            ctx.count("geo_distance_array_rescaled_in_place")
         Bc = np.asarray(net.adjacency) != 0
         edges = np.array(net.graph.get_edgelist(), dtype=int).reshape(-1, 2)
         degc = Bc.sum(axis=0)
